@@ -2,23 +2,23 @@ SPECIFICATION Spec
 CONSTANTS
   Keys = {1}
   Clients = {1, 2}
-  MaxSize = 3
-  Costs = {1, 3}
-  TTLs = {0}
+  MaxSize = 2
+  Costs = {1}
+  TTLs = {1, 2, 3}
   QCap = 2
   BatchMax = 2
   MaxEnt = 2
-  MaxTime = 1
+  MaxTime = 6
   OpsPerClient = 2
-  Allowed <- AllowAcct
-  WithTicker = FALSE
-  Thresh = 30
+  Allowed <- AllowTime
+  WithTicker = TRUE
+  Thresh = 2
   AdvSteps = {1}
-  StallOnly = FALSE
+  StallOnly = TRUE
   Door = FALSE
   FixD2 = TRUE
   FixD6 = TRUE
   FixD7 = TRUE
   FixD16 = TRUE
 VIEW view
-INVARIANTS TypeOK AcctInv NotifInv NotifComplete NoBadC06
+INVARIANTS TypeOK NoBadC03
